@@ -30,7 +30,7 @@ META.update({
     "C02": {"rule": ADSR_RULE, "assumptions": COMMON + ["phase read through Adsr::verif_state()", "per-tick progress x=1/(T*fs) is integrated as an interval [x(1-2^-22)-2^-24, x(1+2^-22)]: early = ended with upper bound < 1, late = not ended with lower bound >= 1", "all four inputs are set before the first gate event (power-on parameter values are not part of the property)"]},
     "C03": {"rule": ADSR_RULE, "assumptions": COMMON + ["slope bound 1.005*S*c*x*(1+2^-22)+|ds|+4ulp with S=1.81062 (attack), 4.07463 (decay/release), c the span of the segment, x the fraction of the phase one tick covers (the larger of what the configured time commands and what the phase counter did)"]},
     "C04": {"rule": MIDI_RULE + "; workload: note-on / note-off / velocity-0 / All Notes Off on the listened channel, pools of 1..128 notes, explicit and running status, priority and retrigger switched at random, at most 32 outstanding note-ons; a key held under melodies of 250-70000 notes; the 32-entry buffer filled with distinct / identical keys and re-struck; pattern-repeat storms of 2^8 ... 2^20 (thorough: 2^32) note pairs (also of incomplete, foreign-channel and real-time-only messages), also with a key struck just before the count is reached, every storm followed by two fresh keys of which the newer is released, and 2^8-d / 2^16-d pairs (d = 0..9) followed by a rolled chord released newest-first", "assumptions": COMMON + ["histories are cut before a 33rd outstanding note-on (the property is stated up to 32)", "CC 123 is All Notes Off for any value byte"]},
-    "C05": {"rule": MIDI_RULE + "; workload: the C04 streams with edge polls interleaved (sparse at several rates, and strict = both edges after every message), note floods beyond 32 outstanding note-ons (observed-gate mode), poll-free bursts of 254-513 messages and pattern-repeat storms of 2^8 ... 2^20 (thorough: 2^32) messages between two polls", "assumptions": COMMON + ["edge getters are polled on implementation and reference at the same instant"]},
+    "C05": {"rule": MIDI_RULE + "; workload: the C04 streams with edge polls interleaved (sparse at several rates, and strict = both edges after every message), note floods beyond 32 outstanding note-ons (observed-gate mode), poll-free bursts of 254-513 messages and pattern-repeat storms of 2^8 ... 2^20 (thorough: 2^32) messages between two polls", "assumptions": COMMON + ["edge getters are polled on implementation and reference at the same instant", "the edge getters are modelled as self-clearing latches: several unread edges of one kind merge into one true (what the crate documents and does), not as per-edge counters"]},
     "C06": {"rule": MIDI_RULE + "; workload: 24 well-formed base streams x every split point x 16 channels with real-time bytes inserted, random insertions, unstructured byte streams in four styles (uniform, status-heavy, data-heavy running status, own-channel with system bytes), universal SysEx messages with arbitrary parameter bytes and device ids, SysEx payloads of 127-600 bytes, runs of 23-1000 real-time bytes inside a message, RPN/NRPN/data-entry sequences, channel-mode controllers 120-127 followed by foreign-channel traffic, pattern-repeat storms", "assumptions": COMMON + ["pitch-bend scaling is taken from a table read from a fresh receiver (the scaling itself is judged by C18); framing decides which bytes form the value", "histories are cut before a 33rd outstanding note-on", "0xF9/0xFD are treated as real-time (transparent), 0xF4/0xF5 as system common (cancel running status)", "C06 judges framing, not the meaning of messages: the values restored by controller 121 are taken from the implementation (C18 judges them) and note_num() is not compared between a priority switch and the next note message that re-selects from held keys (C04 judges that)"]},
     "C18": {"rule": MIDI_RULE + "; workload: 16 channels x 128 controllers x 128 values (explicit + running status, listened + foreign channel, foreign-channel traffic after every controller number), all 16384 pitch-bend values ascending/descending, pitch-bend values in other orders on fresh receivers (MSB-only wheels, constant LSB, repeats, alternating extremes, random order), mode setters (priority / retrigger, each really changing the mode) dropped between arbitrary bytes, scaling tables, controllers interleaved with note traffic, RPN/NRPN/data-entry sequences, universal SysEx messages (master volume, GM on/off, ...) followed by a controller reset, other channels' messages with real-time bytes inside them right after own controller / pitch-bend messages, pattern-repeat storms", "assumptions": COMMON + ["power-on defaults are read from a freshly constructed receiver at run time"]},
 })
@@ -51,7 +51,7 @@ META.update({
     "C19": {"rule": QUANT_RULE, "assumptions": COMMON + ["'two f32 ulps' is taken at the magnitude of the largest of |input|, |stairstep|, |fraction|", "chromatic fraction range widened by 10 uV (integer microvolt note grid)"]},
     "C13": {"rule": GLIDE_RULE, "assumptions": COMMON + ["filter resolution res = 2*2^-23*M/(1-a) (M = largest |input| so far, a = pole of the time in effect), plus the decaying remainder of the previous setting's resolution after a set_time change", "for times below 100 samples the pole is only assumed to lie in [0, a(100/fs)]", "'settles' is decided as bounded progress: |e_n| <= |e_1|*a'^(n-1) + res with 1-a' = 0.78 (1-a) (the slowest cutoff C14 admits), and only an approach slower than that for the slowest time requested so far is a violation (which request is in effect is C14's dead-band clause)", "the first sample of a hold is exempt from the monotone clause (it still carries the previous input)", "every history starts with a set_time call; requests within 1e-6 of the dead-band edge make the time in effect unknown until a far jump"]},
     "C14": {"rule": GLIDE_RULE, "assumptions": COMMON + ["the pole is estimated over a window in which the error decays by about 30 %; any pole with 1-a within [0.80, 1.30] of the nominal one conforms (C14 pins the speed only through its two points); dead-band discrimination only where t <= 1 s and 100 <= t*fs <= 1e5", "t > 10 s is compared bit for bit with t = 10 s on twin processors"]},
-    "C15": {"rule": RIBBON_RULE, "assumptions": COMMON + ["required run length L = capacity + max(floor(fs*1ms)-1, 0) (the value the repository's unit tests pin at 10 kHz: 179 no press, 180 press)", "generated samples keep 2e-5 away from the in-range boundary, except samples placed exactly on it (out of range) or 1-3 f32 ulps below it (in range) where the f32 and the real-number reading of the boundary agree", "'supported sample rates' = integer rates for which sample_rate_to_capacity() does not overflow (up to 286 kHz); 608 of them are instantiated; C15/C16 also use buffers rounded up to 64/256/1024/4096 slots (required run length computed from the actual capacity)"]},
+    "C15": {"rule": RIBBON_RULE, "assumptions": COMMON + ["required run length L = capacity + max(floor(fs*1ms)-1, 0) (the value the repository's unit tests pin at 10 kHz: 179 no press, 180 press)", "generated samples keep 2e-5 away from the in-range boundary, except samples placed exactly on it (out of range) or 1-3 f32 ulps below it (in range) where the f32 and the real-number reading of the boundary agree", "finger_just_pressed()/finger_just_released() are modelled as self-clearing latches (several unread changes merge into one true), as the crate documents them", "'supported sample rates' = integer rates for which sample_rate_to_capacity() does not overflow (up to 286 kHz); 608 of them are instantiated; C15/C16 also use buffers rounded up to 64/256/1024/4096 slots (required run length computed from the actual capacity)"]},
     "C16": {"rule": RIBBON_RULE + "; influence probes: twin controllers fed identical two-press histories except one sample raised by 0.25*boundary, per region {earlier press, pre-window, window, discarded tail, settling}", "assumptions": COMMON + ["mean tolerance 4*capacity*2^-24 + 2 ulp (sequential f32 summation); exact window membership is decided by the influence probes (bit-identical / strictly larger)"]},
     "C17": {"rule": "union of the hostile generators of all six modules with every API call inside catch_unwind in a build with overflow-checks and debug-assertions on (crate and dependencies), an argument fuzzer over the documented ranges (any f32 bit pattern where the property allows it), and bounded-progress hang detection for the ADSR (a timed phase that has not ended after ten times the duration C02 allows); Miri runs the reduced workloads (--tier small). distinct_nontrivial = distinct observation classes of all module monitors + (module, non-finite-argument count, sample-rate decade) of the argument fuzzer",
             "assumptions": COMMON + ["hangs are decided on logical steps (C02 duration bound), wall-clock watchdogs only yield 'inconclusive'", "Miri findings count as violations; Miri cannot run the large sweeps"]},
